@@ -744,6 +744,26 @@ Section Ops.
     | [] => ret acc
     | x :: r => acc' <- rec (CInter acc x) ;; fi_fold acc' r
     end.
+  (* set_intersection(set_set) once no FiniteSet is among the operands *)
+  Definition free_inter_rest (incopy : list sv) : M sv :=
+    match split_first is_union [] incopy with
+    | Some (pre, SUnion container, post) =>
+        other <- rec (CFInter (pre ++ post)) ;;
+        usets <- map_ins (fun c => free_inter2 c other) container [] ;;
+        rec (CFUnion usets)
+    | _ =>
+      match split_first is_compl [] incopy with
+      | Some (pre, SCompl universe container, post) =>
+          incopy' <- ss_ins universe (pre ++ post) ;;
+          other <- rec (CFInter incopy') ;;
+          rec (CCompl container other)
+      | _ =>
+        match incopy with
+        | x :: r => fi_fold x r
+        | [] => ret SUniv
+        end
+      end
+    end.
   Definition free_inter (l : list sv) : M sv :=
     match l with
     | [] => ret SUniv
@@ -758,25 +778,7 @@ Section Ops.
           | SFinite elems :: fsets =>
               c <- fi_finite elems fsets (filter (fun x => negb (is_finite x)) incopy) [] ;;
               ret (finiteset c)
-          | _ =>
-            match split_first is_union [] incopy with
-            | Some (pre, SUnion container, post) =>
-                other <- rec (CFInter (pre ++ post)) ;;
-                usets <- map_ins (fun c => free_inter2 c other) container [] ;;
-                rec (CFUnion usets)
-            | _ =>
-              match split_first is_compl [] incopy with
-              | Some (pre, SCompl universe container, post) =>
-                  incopy' <- ss_ins universe (pre ++ post) ;;
-                  other <- rec (CFInter incopy') ;;
-                  rec (CCompl container other)
-              | _ =>
-                match incopy with
-                | x :: r => fi_fold x r
-                | [] => ret SUniv
-                end
-              end
-            end
+          | _ => free_inter_rest incopy
           end
       end
     end.
